@@ -353,6 +353,7 @@ func translate(repo string) (out string, err error) {
 	conf := types.Config{Importer: failingImporter{}, Error: func(error) {}, Sizes: types.SizesFor("gc", "amd64")}
 	conf.Check("validator", fset, []*ast.File{file}, info) // errors about the unresolved imports are expected and ignored
 	t := &tr{fset: fset, info: info}
+	lastTr, lastFile, lastFset = t, file, fset
 
 	var b strings.Builder
 	b.WriteString("/-\n  GENERATED by /verif/tools/c14facts from graphql/validator/validate_cost.go of the repository under\n  check — do not edit; regenerated at the start of every `./check C14` (pre_cmds of checks/C14.json).\n")
@@ -422,6 +423,13 @@ func translate(repo string) (out string, err error) {
 	return b.String(), nil
 }
 
+// what translate() parsed and type-checked, for the translation of the walk (walk.go)
+var (
+	lastTr   *tr
+	lastFile *ast.File
+	lastFset *token.FileSet
+)
+
 func writeIfChanged(path string, content []byte) error {
 	if old, err := os.ReadFile(path); err == nil && bytes.Equal(old, content) {
 		return nil
@@ -437,6 +445,7 @@ func main() {
 	repo := flag.String("repo", os.Getenv("VERIF_REPO"), "repository root (default $VERIF_REPO, then /repo)")
 	out := flag.String("out", "", "Lean file to write (default: stdout)")
 	fallback := flag.String("fallback", "", "file copied to -out when the source cannot be translated")
+	walkout := flag.String("walkout", "", "Lean file to write the translation of the cost walk to (GeneratedWalk.lean)")
 	flag.Parse()
 	if *repo == "" {
 		*repo = "/repo"
@@ -455,10 +464,26 @@ func main() {
 	}
 	if *out == "" {
 		fmt.Print(text)
-		return
-	}
-	if err := writeIfChanged(*out, []byte(text)); err != nil {
+	} else if err := writeIfChanged(*out, []byte(text)); err != nil {
 		fmt.Fprintln(os.Stderr, "c14facts:", err)
 		os.Exit(1)
+	}
+	if *walkout != "" {
+		wtext, werr := translateWalk(*repo, lastTr, lastFile, lastFset)
+		if werr != nil {
+			fmt.Fprintln(os.Stderr, "c14facts:", werr)
+			if *walkout != "-" {
+				if e2 := writeIfChanged(*walkout, []byte(walkStub(werr.Error()))); e2 == nil {
+					fmt.Fprintln(os.Stderr, "c14facts: wrote a file without definitions to", *walkout, "(the theorems about the generated walk stop checking; the harness decides whether a failing input exists)")
+				}
+			}
+			os.Exit(1)
+		}
+		if *walkout == "-" {
+			fmt.Print(wtext)
+		} else if err := writeIfChanged(*walkout, []byte(wtext)); err != nil {
+			fmt.Fprintln(os.Stderr, "c14facts:", err)
+			os.Exit(1)
+		}
 	}
 }
